@@ -1,5 +1,9 @@
 // C16 harness: runs op lines on the real alpaqa::util::TypeErased with instrumented payload
-// types and a stateful allocator; prints, per op, the event log followed by the outcome.
+// types and a stateful allocator over *tracking arenas*; prints, per op, the event log followed
+// by the outcome.  An allocator instance is (id, arena): instances 2c and 2c+1 share arena c and
+// compare equal, all others are unequal.  Every arena counts the blocks it handed out and the
+// blocks handed back *to it*; every block remembers the instance and arena it came from.  The
+// end-of-sequence line carries the per-arena ledger `ar=c:allocs/frees,…`.
 //   events: A a b n (allocator a allocated block b of n bytes)   D a b (deallocated by a)
 //           C id v (value ctor)  K id src (copy ctor)  M id src (move ctor)  X id (dtor)
 //           T (a payload constructor threw)  R id v (read hit object id)  W id v (write)
@@ -31,6 +35,11 @@ struct BlockInfo {
 };
 std::map<void *, long> g_live_blocks; // address -> block number (live only)
 std::vector<BlockInfo> g_blocks;
+struct Arena {
+    long allocs = 0; // blocks handed out by this arena
+    long frees  = 0; // blocks handed back to this arena
+};
+std::map<int, Arena> g_arenas; // arena number -> ledger
 
 void ev(const std::string &s) { g_ev.push_back(s); }
 std::string S(long x) { return std::to_string(x); }
@@ -144,11 +153,13 @@ struct Alloc {
     using propagate_on_container_swap            = std::false_type;
     using is_always_equal                        = std::false_type;
     int id                                       = 0;
+    int arena() const { return id / 2; }
     Alloc()                                      = default;
     explicit Alloc(int id) : id{id} {}
     std::byte *allocate(size_t n) {
         void *p = ::operator new(n);
         long b  = (long)g_blocks.size();
+        ++g_arenas[arena()].allocs;
         g_blocks.push_back({b, id, n, true, -1});
         g_live_blocks[p] = b;
         ev("A " + S(id) + " " + S(b) + " " + S((long)n));
@@ -161,6 +172,7 @@ struct Alloc {
             return;
         }
         auto &B = g_blocks[it->second];
+        ++g_arenas[arena()].frees; // the arena *this instance* works on gets the block
         ev("D " + S(id) + " " + S(B.b));
         if (n != B.n)
             ev("BAD:deallocate-size");
@@ -170,7 +182,7 @@ struct Alloc {
         ::operator delete(p);
     }
     Alloc select_on_container_copy_construction() const { return SOCC ? Alloc{0} : *this; }
-    friend bool operator==(const Alloc &a, const Alloc &b) { return a.id / 2 == b.id / 2; }
+    friend bool operator==(const Alloc &a, const Alloc &b) { return a.arena() == b.arena(); }
     friend bool operator!=(const Alloc &a, const Alloc &b) { return !(a == b); }
 };
 
@@ -214,6 +226,7 @@ struct Session : ISession {
         g_dtor_count.clear();
         g_blocks.clear();
         g_live_blocks.clear();
+        g_arenas.clear();
         env0.emplace(100, false);
         env1.emplace(101, false);
         g_ev.clear();
@@ -419,8 +432,11 @@ int main() {
                 bad += c != 1;
             for (auto &B : g_blocks)
                 blk += B.live || B.freed_by < 0 || B.freed_by / 2 != B.alloc / 2;
+            std::string ar;
+            for (auto &[c, A] : g_arenas)
+                ar += (ar.empty() ? "" : ",") + S(c) + ":" + S(A.allocs) + "/" + S(A.frees);
             print_line("end bad=" + S(bad) + " blk=" + S(blk) + " ids=" + S(g_next_id) +
-                       " nblk=" + S((long)g_blocks.size()));
+                       " nblk=" + S((long)g_blocks.size()) + " ar=" + (ar.empty() ? "-" : ar));
             sess.reset();
             sess = make_session(t.size() > 1 ? std::stoi(t[1]) : 0);
             continue;
